@@ -1,6 +1,7 @@
 (** C06 -- squawk equals the octal identity code of the latest DF5/DF21 reply.
     Only statements, [exact], [Check] and [Print Assumptions] live here. *)
-From SQ Require Import Base Id13 SquawkProof.
+From SQ Require Import Base Id13 SquawkProof Update Footprint RowFacts.
+Local Open Scope N_scope.
 
 (** For every frame long enough to have bits 20..32 (all 14- and 28-nibble frames), whatever
     the other bits, the decoder returns the four octal digits A B C D of the identity field,
@@ -10,6 +11,43 @@ Proof. exact squawk_correct. Qed.
 
 Check C06_field : forall m, (8 <= List.length m)%nat -> wf m -> squawk m = Ok (Some (id_spec m)).
 Print Assumptions C06_field.
+
+(** squitter path (Plane::update): a DF5/DF21 frame sets the squawk to the decoded identity ... *)
+Theorem C06_update_sets : forall obs now r m df relaxed r',
+  plane_update obs now r m df relaxed = Ok r' -> df = 5 \/ df = 21 ->
+  (8 <= List.length m)%nat -> wf m -> r_squawk r' = Some (id_spec m).
+Proof. exact plane_update_squawk_spec. Qed.
+Check C06_update_sets : forall obs now r m df relaxed r',
+  plane_update obs now r m df relaxed = Ok r' -> df = 5 \/ df = 21 ->
+  (8 <= List.length m)%nat -> wf m -> r_squawk r' = Some (id_spec m).
+Print Assumptions C06_update_sets.
+
+(** ... and no frame of any other downlink format changes it *)
+Theorem C06_update_keeps : forall obs now r m df relaxed r',
+  plane_update obs now r m df relaxed = Ok r' -> df <> 5 -> df <> 21 -> r_squawk r' = r_squawk r.
+Proof. exact plane_update_squawk_keeps. Qed.
+Check C06_update_keeps : forall obs now r m df relaxed r',
+  plane_update obs now r m df relaxed = Ok r' -> df <> 5 -> df <> 21 -> r_squawk r' = r_squawk r.
+Print Assumptions C06_update_keeps.
+
+(** downlink path (DF::from_message + update_from_downlink): only a DF5 short reply changes it *)
+Theorem C06_downlink_keeps : forall obs now r d,
+  dl_df d <> Some 5 -> r_squawk (update_from_downlink obs now r d) = r_squawk r.
+Proof. exact downlink_squawk_keeps. Qed.
+Check C06_downlink_keeps : forall obs now r d,
+  dl_df d <> Some 5 -> r_squawk (update_from_downlink obs now r d) = r_squawk r.
+Print Assumptions C06_downlink_keeps.
+
+Theorem C06_downlink_sets : forall obs now r m s,
+  srt_from_message m = Ok s -> s_df s = Some 5 -> s_icao s <> None ->
+  (8 <= List.length m)%nat -> wf m ->
+  r_squawk (update_from_downlink obs now r (DSrt s)) = Some (id_spec m).
+Proof. exact downlink_squawk_spec. Qed.
+Check C06_downlink_sets : forall obs now r m s,
+  srt_from_message m = Ok s -> s_df s = Some 5 -> s_icao s <> None ->
+  (8 <= List.length m)%nat -> wf m ->
+  r_squawk (update_from_downlink obs now r (DSrt s)) = Some (id_spec m).
+Print Assumptions C06_downlink_sets.
 
 (** non-vacuity: the recorded DF5 reply 2800189A8E0F41 (squawk 5611 in the unit tests) *)
 Example C06_example :
